@@ -500,7 +500,7 @@ def plan(tier, seed):
                       'two residues of equal identity are invalid and skipped; plus every 3-residue window of 4 proteins '
                       '(with/without OXT or O\'\' on the last residue), every ligand template and ion alone and next to a '
                       'peptide, whole structures with and without chain selection. Streams with <= 1 deviation are also '
-                      'run with chain selection and titrate-only settings. non-trivial = distinct streams whose expected '
+                      'run with chain selection and titrate-only settings. residues cut down to the defining atom of their group; alt-loc / MODEL layouts that complete each other and point mutants at the first, middle and last residue; alternate locations on one single atom (every atom of the first / a middle / the last residue in turn); pseudo-nucleotides for every entry of the custom model-pKa table; docked cysteine pairs (S-S along 8 directions, distances around 2.5 A, thiol ligand partner) under every titrate-only listing. non-trivial = distinct streams whose expected '
                       'census is non-empty') % (TOKEN_TYPES_Q, 2 if tier == 'quick' else 3),
                 bounds=dict(max_tokens=3 if tier == 'quick' else 4, max_deviations=2 if tier == 'quick' else 3,
                             streams=len(streams), windows=len(windows), others=len(others)),
